@@ -23,7 +23,7 @@ LEVEL = 'exploration'
 DECIDING = ['tap:Obs.export_jackknife', 'tap:Obs.export_bootstrap', 'tap:import_jackknife', 'tap:import_bootstrap',
             'export_jk_judged', 'export_bs_judged', 'import_jk_judged', 'import_bs_judged', 'seeded_tables_recomputed',
             'import_bs_rejections_required', 'jackknife_variance_identities', 'held_results_rechecked', 'history_requests',
-            'scale_relations', 'saved_tables_fed_back']
+            'scale_relations', 'saved_tables_fed_back', 'imports_with_entry0_different_from_the_sample_mean', 'jackknife_matrix_products']
 RULE = ('cases: single-chain observables (names with and without replica part, non-ASCII name), length 5 / 6-30 / 31-500 (quick: import_bootstrap up to 120), '
         'configuration lists contiguous / strided / gapped / irregular given as range, list or ndarray, data white / AR(1) / constant / alternating / counts with exact zeros / '
         '1e-8 / 1e8 / distinct / magnitudes mixed over 12 decades; primary observables and derived ones (same chain, different lists); resampling tables: random, '
@@ -31,7 +31,7 @@ RULE = ('cases: single-chain observables (names with and without replica part, n
         'int64 / int32 / int16 / intp / uint8 / nested lists / tuples, C / Fortran / transposed / strided memory layout; sample, jackknife and bootstrap arrays also as strided and negative-stride views; '
         'configuration numbers starting at 0 and above 1e7; seeded export with 1..500 samples, with save_rng and the saved numbers fed back; histories (same name and sample number but other length, same length other name '
         'out of a prefix family, same name / length / first / last configuration but other interior and data; seeded, explicit-table and jackknife requests and re-analyses in random order, every result held and re-requested); '
-        'the same chain multiplied by 2^+-27, 2^+-60, 1e+-8, 1e+-15; every exported array is kept and re-checked after later calls; second hardening: observable and table compared with their state before every export (monitors), bootstrap arrays that do not belong to the table (one sample too few / too many) must be rejected, spectator observables with weight exactly zero in derived observables, int16 / uint16 tables for more than 255 configurations, imports with lists of equal length / first / last configuration but other members; counters judged:<mechanism> give the number of evaluations of every judgement. non-trivial: the chain has non-zero variance (or a rejection was required); '
+        'the same chain multiplied by 2^+-27, 2^+-60, 1e+-8, 1e+-15; every exported array is kept and re-checked after later calls; second hardening: observable and table compared with their state before every export (monitors), bootstrap arrays that do not belong to the table (one sample too few / too many) must be rejected, spectator observables with weight exactly zero in derived observables, int16 / uint16 tables for more than 255 configurations, imports with lists of equal length / first / last configuration but other members; counters judged:<mechanism> give the number of evaluations of every judgement; kind biased: arrays whose entry 0 is not the mean of the other entries (jackknife / bootstrap samples of non-linear functions, arbitrary entry 0), observables whose central value is not their replica mean (imported ones, observables derived from them, entries of jack_matmul / einsum products), imported, exported and re-imported twice. non-trivial: the chain has non-zero variance (or a rejection was required); '
         'distinct = digest of (function, chain name, configuration list, data, table)')
 ASSUMPTIONS = ['default resampling table = numpy.random.default_rng(md5(chain name) & 0xFFFFFFFF).integers(0, N, (samples, N)) - the documented convention (docstring: "based on the md5 hash of the ensemble name"), adopted by the reference',
                'direct arithmetic compared at 1e-11 of max|sample|; import_jackknife (sum of N numbers minus (N-1) J_i) at 1e-12 N max|sample|; import_bootstrap (least squares) at 1e-11 cond max|sample|, tables with cond > 1e5 are not judged',
@@ -208,6 +208,9 @@ class ImportBS(taps.Monitor):
         back = R.bootstrap_means(x, table)
         sc = max(abs(v) for v in boots)
         ctx.close(back, boots[1:], 'import_bootstrap:restored-samples-do-not-reproduce-the-bootstrap-means', 'residual', rtol=1e-11 * cond, scale=sc, atol=1e-300)
+        # the fluctuations are centred on the mean of the restored samples, whatever entry 0 says (entry 0 is the central value only)
+        ctx.close(result.r_values[name], R.mean(x), 'import_bootstrap:replica-mean-is-not-the-mean-of-the-restored-samples', 'mean', rtol=1e-11 * cond, scale=sc, atol=1e-300)
+        ctx.close(float(np.sum(result.deltas[name])), 0.0, 'import_bootstrap:fluctuations-do-not-sum-to-zero', '', rtol=1e-11 * cond * n, scale=sc, atol=1e-300)
 
 
 def count_judgements(ctx, norm=None):
@@ -243,7 +246,7 @@ def teardown(ctx):
 def plan(tier):
     m = 1 if tier == 'quick' else 40
     return [('jk', 900 * m), ('bs_table', 600 * m), ('bs_seed', 450 * m), ('bs_import', 600 * m), ('derived', 300 * m), ('bs_reject', 150 * m),
-            ('history', 120 * m), ('scale', 150 * m)]
+            ('history', 120 * m), ('scale', 150 * m), ('biased', 330 * m)]
 
 
 # ------------------------------------------------------------------------------------------
@@ -745,6 +748,127 @@ def case_scale(ctx, idx, rng):
     nontrivial(ctx, chain, 'scale', name, c)
 
 
+NONLINEAR = [('square', lambda m: m * m), ('exp', lambda m: np.exp(0.7 * m)), ('ratio', lambda m: np.exp(2.5 * m) / (1.0 + m * m)),
+             ('inverse', lambda m: 1.0 / (3.0 + m * m)), ('sin', lambda m: np.sin(1.3 * m))]
+
+
+def judge_biased_import(ctx, imp, name, jk, cfgs, what, vtol=0.0):
+    """imported observable against the array it came from, when entry 0 is NOT the mean of the other entries:
+    value = entry 0; fluctuations = (N-1) (mean(J) - J_i), centred on their own mean; squared S=0 error = jackknife variance"""
+    from fractions import Fraction
+    n = len(jk) - 1
+    f = [Fraction(float(v)) for v in jk[1:]]
+    jb = sum(f) / n
+    exp = [float((n - 1) * (jb - v)) for v in f]
+    sc = max(abs(float(v)) for v in jk)
+    dsc = max(max(abs(v) for v in exp), 1e-300)
+    ctx.count('imports_with_entry0_different_from_the_sample_mean')
+    ctx.close(imp.value, float(jk[0]), 'import_jackknife:value-not-entry0', what, rtol=0.0, atol=vtol * sc)
+    tol = 1e-12 * n * sc
+    ctx.close(np.asarray(imp.deltas[name], dtype=float), exp, 'import_jackknife:fluctuations-not-centred-on-the-mean-of-the-samples', what, rtol=0.0, atol=tol,
+              detail={'entry0_minus_mean_of_samples': float(Fraction(float(jk[0])) - jb), 'fluctuation_scale': dsc, 'N': n})
+    ctx.close(float(np.sum(imp.deltas[name])), 0.0, 'import_jackknife:fluctuations-do-not-sum-to-zero', what, rtol=0.0, atol=tol * n)
+    ctx.equal([int(i) for i in imp.idl[name]], [int(i) for i in cfgs], 'import_jackknife:configuration-list', what)
+    imp.gamma_method(S=0)
+    var = R.jackknife_variance([float(v) for v in jk])
+    ctx.count('jackknife_variance_identities')
+    ctx.close(imp.dvalue ** 2, var, 'jackknife-variance-differs-from-squared-S0-error', what + ' (entry 0 differs from the mean of the samples)', rtol=1e-8, atol=(1e-13 * sc) ** 2)
+
+
+def judge_roundtrip_of(ctx, o, name, what):
+    """export -> import of an observable whose central value is not its replica mean: value, fluctuations and configuration
+    list come back (the replica mean cannot: the exported array carries one number for both)"""
+    d0 = np.array(o.deltas[name], dtype=float)
+    cf = [int(i) for i in o.idl[name]]
+    jk = o.export_jackknife()                       # call-level judgement by the monitor
+    back = PE.import_jackknife(jk, name, [cf])
+    sc = max(float(np.max(np.abs(jk))), 1e-300)
+    n = len(cf)
+    ctx.close(back.value, o.value, 'import_jackknife:value', what, rtol=0.0, atol=0.0)
+    ctx.close(np.asarray(back.deltas[name], dtype=float), d0, 'import_jackknife:fluctuations', what, rtol=0.0, atol=1e-12 * n * sc)
+    ctx.equal([int(i) for i in back.idl[name]], cf, 'import_jackknife:configuration-list', what)
+    back.gamma_method(S=0)
+    o.gamma_method(S=0)
+    ctx.close(back.dvalue ** 2, o.dvalue ** 2, 'import_jackknife:naive-error-not-restored', what, rtol=1e-7, atol=(1e-13 * sc) ** 2)
+    ctx.close(back.dvalue ** 2, R.jackknife_variance([float(v) for v in jk]), 'jackknife-variance-differs-from-squared-S0-error', what, rtol=1e-8, atol=(1e-13 * sc) ** 2)
+    return back
+
+
+def case_biased(ctx, idx, rng):
+    """Inputs in which two numbers that coincide for a plain observable differ: entry 0 of the array is not the mean of the
+    other entries (jackknife / bootstrap samples of a non-linear function, arbitrary central value), the central value of an
+    observable is not its replica mean (imported ones, things derived from them, jackknife matrix products)."""
+    how = ['nonlinear', 'nonlinear', 'arbitrary-entry0', 'derived-from-imported', 'jack_matmul', 'bootstrap-nonlinear'][idx % 6]
+    n = [5, 6, 12, 30, 80, 200][(idx // 6) % 6]
+    name = str(rng.choice(NAMES))
+    idl, cfgs, chain, lkind, dkind = make_chain(rng, n, dkind=str(rng.choice(['white', 'ar', 'distinct', 'alt'])))
+    x = np.array([chain[c] for c in cfgs]) * 0.5 + 0.8
+    fname, f = NONLINEAR[(idx // 36) % len(NONLINEAR)]
+    ctx.cell('biased', how, lkind)
+    loo = (np.sum(x) - x) / (n - 1)
+    if how in ('nonlinear', 'arbitrary-entry0', 'derived-from-imported'):
+        jk = np.concatenate([[f(np.mean(x))], f(loo)])
+        if how == 'arbitrary-entry0':
+            jk[0] = float(np.mean(jk[1:]) + rng.normal() * (np.std(jk[1:]) + 1e-3))
+        jin = array_view(rng, jk)
+        imp = PE.import_jackknife(jin, name, [idl])          # call-level: monitor (samples, replica mean, sum of fluctuations, argument unchanged)
+        judge_biased_import(ctx, imp, name, jk, cfgs, how + ' ' + fname)
+        # second use of the same array
+        imp2 = PE.import_jackknife(jin, name, [idl])
+        ctx.close(np.asarray(imp2.deltas[name]), np.asarray(imp.deltas[name]), 'import_jackknife:second-import-of-the-same-array-differs', how, rtol=0.0, atol=0.0)
+        o = imp
+        if how == 'derived-from-imported':
+            o = 3.0 * imp + imp * imp - np.sin(imp)
+        back = judge_roundtrip_of(ctx, o, name, how + ' ' + fname)
+        judge_roundtrip_of(ctx, back, name, how + ' ' + fname + ', second round trip')
+        ctx.nontrivial.add(digest('biased', how, fname, name, sorted(chain.items())))
+        ctx.sample({'how': how, 'function': fname, 'N': n, 'entry0': float(jk[0]), 'mean_of_samples': float(np.mean(jk[1:])), 'jack_head': [float(v) for v in jk[:4]]})
+    elif how == 'jack_matmul':
+        # jackknife matrix products export every entry, multiply sample by sample and import the products: entry 0 is a
+        # product of means, not the mean of the products.  Every internal export / import is judged by the monitors.
+        dim = 2
+        mk = lambda: np.array([[PE.Obs([rng.normal(size=n) * 0.4 + 1.0 + i + j], [name], idl=[idl]) for j in range(dim)] for i in range(dim)])   # noqa: E731
+        A, B = mk(), mk()
+        C = PE.linalg.jack_matmul(A, B) if idx % 12 < 6 else PE.linalg.einsum('ij,jk', A, B)
+        ctx.count('jackknife_matrix_products')
+        for i in range(dim):
+            for j in range(dim):
+                c = C[i, j]
+                # entry (i,j) sample by sample, recomputed from the operands' exported samples; the entry of the product is
+                # the import of these numbers (entry 0 = product of the central values, not the mean of the products)
+                ref = sum(A[i, k].export_jackknife() * B[k, j].export_jackknife() for k in range(dim))
+                judge_biased_import(ctx, c, name, ref, cfgs, 'entry of a jackknife matrix product', vtol=1e-14)      # the library sums the products in another order
+                judge_biased_import(ctx, PE.import_jackknife(ref, name, [idl]), name, ref, cfgs, 'product of jackknife samples')
+                judge_roundtrip_of(ctx, c, name, 'jack_matmul entry')
+        ctx.nontrivial.add(digest('biased', how, name, sorted(chain.items())))
+    else:
+        # bootstrap samples of a non-linear function: entry 0 = f(mean), entry k = f(mean over the resampled configurations)
+        n = min(n, 80)
+        x = x[:n]
+        k = int(rng.choice([n, n + 2, 2 * n]))
+        t = rand_table(rng, k, n)
+        rank, cond = R.rank_and_condition(t, n)
+        if rank < n or cond > 1e5:
+            ctx.count('discarded_ill_conditioned')
+            raise Skip()
+        means = np.array(R.bootstrap_means([float(v) for v in x], t))
+        if k == n:
+            bs = np.concatenate([[f(np.mean(x))], f(means)])          # square table: any right-hand side determines the samples
+        else:
+            bs = np.concatenate([[f(np.mean(x))], means])             # more samples than configurations: a consistent system, entry 0 is not its mean
+        imb = PE.import_bootstrap(array_view(rng, bs), name, t)          # call-level: monitor (value, residual, centring)
+        # reference solution of the linear system counts/N * y = B[1:] (numpy least squares on the reference count matrix)
+        cm = R.count_matrix(t, n) / n
+        y = np.linalg.lstsq(cm, bs[1:], rcond=None)[0]
+        sc = float(np.max(np.abs(bs)))
+        ctx.count('imports_with_entry0_different_from_the_sample_mean')
+        ctx.close(imb.value, bs[0], 'import_bootstrap:value', 'non-linear function', rtol=0.0, atol=0.0)
+        ctx.close(np.asarray(imb.deltas[name], dtype=float), y - np.mean(y), 'import_bootstrap:fluctuations-not-centred-on-the-mean-of-the-samples', 'non-linear function ' + fname,
+                  rtol=0.0, atol=1e-10 * cond * sc, detail={'entry0_minus_mean': float(bs[0] - np.mean(y)), 'cond': cond})
+        ctx.close(float(np.sum(imb.deltas[name])), 0.0, 'import_bootstrap:fluctuations-do-not-sum-to-zero', 'non-linear function', rtol=0.0, atol=1e-10 * cond * sc * n)
+        ctx.nontrivial.add(digest('biased', how, fname, name, [float(v) for v in x]))
+
+
 def run_case(ctx, kind, idx, rng):
     if kind == 'jk':
         case_jk(ctx, idx, rng)
@@ -762,5 +886,7 @@ def run_case(ctx, kind, idx, rng):
         case_history(ctx, idx, rng)
     elif kind == 'scale':
         case_scale(ctx, idx, rng)
+    elif kind == 'biased':
+        case_biased(ctx, idx, rng)
     else:
         raise ValueError(kind)
